@@ -83,6 +83,8 @@ func (g *genState) leaves() []*tree.Node {
 		mk("bin64", func(n *tree.Node) { n.Data = make([]byte, 8) }),
 		mk("bin128", func(n *tree.Node) { n.Data = make([]byte, 16) }),
 		mk("bin256", func(n *tree.Node) { n.Data = make([]byte, 32) }),
+		mk("struct", func(n *tree.Node) { n.Data = pay(3) }),
+		mk("struct", func(n *tree.Node) { n.Data = pay(253) }),
 		mk("bytes", func(n *tree.Node) { n.Data = nil }),
 		mk("bytes", func(n *tree.Node) { n.Data = pay(0xfd) }),
 		mk("str", func(n *tree.Node) { n.Data = pay(0xfc) }),
@@ -168,6 +170,9 @@ func (g *genState) genC01() {
 		// a message holding the copy as a field, as an element, and merged into a message with other fields
 		g.emit("raw-any", "w,g,x={5="+tree.Canon(src)+",}", "msg;fany@0 5 "+hexs+";build@0")
 		g.emit("raw-any", "w,g,x=["+tree.Canon(src)+",]", "list;eany@0 "+hexs+";build@0")
+		// several raw elements, a field-less message among them (an element like any other)
+		g.emit("raw-any", "w,g,x=["+tree.Canon(src)+",{},"+tree.Canon(src)+",]", "list;eany@0 "+hexs+";eany@0 000050;eany@0 "+hexs+";build@0")
+		g.emit("raw-any", "w,g,x=[{},"+tree.Canon(src)+",]", "list;eany@0 000050;eany@0 "+hexs+";build@0")
 		g.emit("raw-copy", "w,g,x="+tree.Canon(src), "msg;copy@0 "+hexs+";build@0")
 		g.emit("raw-copy", "w,g", "msg;f@0 1 i32 9;merge@0 "+hexs+";has@0 1;build@0")
 	}
@@ -453,6 +458,13 @@ func (g *genState) genC16() {
 	tg := &tree.Gen{R: g.r, MaxDepth: 2, MaxElems: 6}
 	for i := 0; i < n; i++ {
 		src := tg.Msg(2)
+		if i%4 == 0 {
+			// the old data also holds a struct field the new schema does not know (sizes around the
+			// varint widths of the struct's size field)
+			sizes := []int{0, 1, 8, 252, 253, 254, 300, 1000}
+			src.Tags = append(src.Tags, uint16(20000+g.r.Intn(1000)))
+			src.Fields = append(src.Fields, &tree.Node{Kind: "struct", Data: g.r.Bytes(sizes[g.r.Intn(len(sizes))])})
+		}
 		res := wprog.New(buffer.New()).Run(tree.Program(src))
 		if !res.Built {
 			continue
@@ -577,6 +589,18 @@ func (g *genState) boundaryTrees(tg *tree.Gen, variant string) {
 		b := &tree.Node{Kind: "byte", U: 7}
 		g.treeLine("offset-boundary", variant, &tree.Node{Kind: "list", Elems: []*tree.Node{a, b}})
 		g.treeLine("offset-boundary", variant, &tree.Node{Kind: "msg", Tags: []uint16{2, 1}, Fields: []*tree.Node{a, b}})
+	}
+	// total body size of exactly 65534/65535/65536/65537 bytes with one and with two entries (a bytes
+	// value of L >= 253 bytes takes L+4): the table form depends on the entries' offsets only
+	for _, s1 := range []int{65529, 65530, 65531, 65532, 65533} {
+		a := &tree.Node{Kind: "bytes", Data: g.r.Bytes(s1)}
+		g.treeLine("size-boundary", variant, &tree.Node{Kind: "list", Elems: []*tree.Node{a}})
+		g.treeLine("size-boundary", variant, &tree.Node{Kind: "msg", Tags: []uint16{1}, Fields: []*tree.Node{a}})
+		g.treeLine("size-boundary", variant, &tree.Node{Kind: "msg", Tags: []uint16{255}, Fields: []*tree.Node{a}})
+		c := &tree.Node{Kind: "bytes", Data: g.r.Bytes(s1 - 2)}
+		t := &tree.Node{Kind: "bool", Bool: true}
+		g.treeLine("size-boundary", variant, &tree.Node{Kind: "list", Elems: []*tree.Node{t, c, t}})
+		g.treeLine("size-boundary", variant, &tree.Node{Kind: "msg", Tags: []uint16{3, 1, 2}, Fields: []*tree.Node{t, c, t}})
 	}
 	for _, c := range []int{14, 15, 47, 48, 49, 50, 254, 255, 256, 257} {
 		l := &tree.Node{Kind: "list"}
